@@ -4,7 +4,7 @@
    kernel/slash.go, kernel/election.go and storage/badger_{node,custodian}.go
    by harness/cmd/c11. *)
 From Coq Require Import List ZArith NArith Bool.
-Require Import Mixin.Base.Res Mixin.Model.Membership Mixin.Proofs.Membership.
+Require Import Mixin.Base.Res Mixin.Model.Membership Mixin.Proofs.Membership Mixin.Proofs.MembershipPerm.
 Import ListNotations.
 Open Scope N_scope.
 
@@ -68,6 +68,35 @@ Theorem C11_custodian_append_later : forall (P : Type) (parse : N -> bool -> res
 Proof. intros. unfold read_custodian_direct. apply cust_scan_put_later. assumption. Qed.
 Print Assumptions C11_custodian_append_later.
 
+(* The Go map inside nodeSequenceWithoutState (and readAllNodes) is iterated in
+   a random order.  For the map as an association list with distinct ids (it
+   has them: latest_by_id_nodup) every permutation gives the same sequence; and
+   a node all of whose map iterations - one arbitrary order per call - are
+   permuted is the same node, so every view (member lists with indexes,
+   thresholds, signer ids and keys, pledging node, predicted removal, elected
+   operator, lookup by id) is unchanged. *)
+Theorem C11_map_order_irrelevant :
+  (forall ao m m', Permutation.Permutation m m' -> NoDup (map r_id m) ->
+     sequence_of_map ao m = sequence_of_map ao m') /\
+  (forall th ao all, node_sequence_without_state th ao all
+     = sequence_of_map ao (latest_by_id (take_before th all)) /\
+     NoDup (map r_id (latest_by_id (take_before th all)))) /\
+  (forall iter, is_iteration iter ->
+     (forall th ao all, nsws_with iter th ao all = node_sequence_without_state th ao all) /\
+     (forall th store, read_all_latest_with iter th store = read_all_latest th store) /\
+     (forall recs genesis epoch mainnet ch round op id t,
+        views_at (load_node_with iter recs genesis epoch mainnet) ch round op id t
+        = views_at (load_node recs genesis epoch mainnet) ch round op id t)).
+Proof.
+  split; [exact sequence_of_map_perm|]. split.
+  - intros th ao all. split; [apply nsws_is_sequence_of_map|apply latest_by_id_nodup].
+  - intros iter Hi. split; [|split].
+    + intros. apply nsws_with_eq. exact Hi.
+    + intros. apply read_all_latest_with_eq. exact Hi.
+    + intros. rewrite load_node_with_eq by exact Hi. reflexivity.
+Qed.
+Print Assumptions C11_map_order_irrelevant.
+
 (* ---- non-vacuity ---------------------------------------------------------------- *)
 Definition ex_epoch : N := 1700000000000000000.
 Definition ex_gen (i : N) : nrec := mkrec ex_epoch (10 + i) (100 + i) (200 + i) (300 + i) Accepted.
@@ -112,3 +141,17 @@ Example C11_custodian_nontrivial :
   run_queries N ex_parse [([(10, 7); (20, 7)], 15); ([(10, 7); (20, 7)], 25); ([(10, 7); (20, 8)], 25)] []
   = [Ok (Some (7, 10, 14)); Err; Ok (Some (8, 20, 16))].
 Proof. vm_compute. reflexivity. Qed.
+
+(* map order: reversing every map iteration (a genuine permutation of a map with
+   nine entries) leaves the views unchanged, while the unsorted lists do differ *)
+Definition ex_rev_iter : iteration := fun _ _ m => rev m.
+Example C11_map_order_example :
+  is_iteration ex_rev_iter /\
+  rev (latest_by_id (take_before ex_t (sort_recs ex_recs))) <> latest_by_id (take_before ex_t (sort_recs ex_recs)) /\
+  length (latest_by_id (take_before ex_t (sort_recs ex_recs))) = 9%nat /\
+  views_at (load_node_with ex_rev_iter ex_recs [] ex_epoch false) ex_ch 0 9 50 ex_t
+  = views_at (load_node ex_recs [] ex_epoch false) ex_ch 0 9 50 ex_t.
+Proof.
+  split; [intros th ao m; apply Permutation.Permutation_rev|].
+  split; [vm_compute; discriminate|]. split; vm_compute; reflexivity.
+Qed.
